@@ -17,6 +17,11 @@ CHECKS = {
   note=TRUST + " std::collections::HashMap is assumed to meet its contract (only equal-hash candidates are compared with ==). Tuple identity shortcut (a NaN-containing tuple compared with itself) is outside the model.",
   technique="Lean 4 proof (hash/== coherence by induction on keys; refinement bucketed map -> association list) + op-sequence correspondence with an independent == oracle",
   ref="DESIGN.md section 5 C12"),
+ "C15": dict(
+  text="Lean 4 theorems on the reuse model (the transient fields of Vm across runs): residue_fresh(_after_any_run) - whatever a previous run left behind (exception in flight, stale fiber stack/frames/handlers/pending return, class definition in progress) the next run's observable start state depends only on the persistent definitions; reset_eq_new; the unrepaired prologue/reset are shown to leak (F18, F29 witnesses); C09's execute_dual. Tie: the model's prologue/reset are re-read from the current source of Vm::execute/Vm::reset on every run; histories of snippets on one interpreter in dev and release builds: no panic, a failing snippet replaced by the definitions it completed must not change what later snippets print (13 kinds of failure), reset-then-continue equals new-then-continue (generated + directed), differential against the Lean reference interpreter.",
+  note=TRUST + " The reuse model is a small transcription of execute()/reset(); 'piecewise equals whole' for arbitrary programs rests on the metamorphic histories and the reference interpreter (partial). A fiber suspended in the caller chain of an aborted run stays 'already called' (documented quirk).",
+  technique="Lean 4 proof on the reuse state machine + source-anchored prologue check + metamorphic snippet histories on one interpreter (dev and release builds)",
+  ref="DESIGN.md section 5 C15"),
  "C16": dict(
   text="Lean 4 theorems on the pacing model (overshoot_le_one_alloc, thr_is_twice_survivors, no_unbounded_growth for every allocation history), on root counting (roots_exact) and on the collector model (collect_complete: nothing unreachable survives; sweep_bytes: exact byte accounting). Tie: every allocation event of real paced runs is replayed through the model and checked against the property's bound; leak detection by census metamorphics after forced collections.",
   note=TRUST + " usize overflow is not modelled; interned strings, chunks and functions are excluded by design.",
